@@ -1001,6 +1001,15 @@ def run(ctx):
         'in place (checked: C01.R3.inplace)',
         'the operator behind residual() is the system operator (C02)',
         'external scipy/numpy callees do not mutate their arguments']
+    # the certificate is about the system of the GIVEN model and source: the
+    # operator coefficients are those of the arguments of this call (rules
+    # of C02; run first, they do not need the structure of solve())
+    from . import c02
+    from ..core.report import Renamed
+    P = Renamed(ctx, lambda r: 'C01.OP.' + r.split('.', 1)[1])
+    c02.coefficients(P)
+    c02.model_aliasing(P)
+    c02.fresh_vmodel(P, rule='C02.O5.fresh')
     M = SolverModel(ctx)
     rule_R1(ctx, M)
     rule_R2(ctx, M)
@@ -1008,11 +1017,3 @@ def run(ctx):
     rule_R4(ctx, M)
     rule_R5(ctx, M)
     rule_R6(ctx, M)
-    # the certificate is about the system of the GIVEN model: the operator
-    # coefficients are those of the arguments of this call (rules of C02)
-    from . import c02
-    from ..core.report import Renamed
-    P = Renamed(ctx, lambda r: 'C01.OP.' + r.split('.', 1)[1])
-    c02.coefficients(P)
-    c02.model_aliasing(P)
-    c02.fresh_vmodel(P, rule='C02.O5.fresh')
